@@ -29,6 +29,7 @@ GROUPS = [
     ("OTF after TTF", lambda k: k.endswith("/otf-after-ttf"), lambda k: k[:-14] + "/otf-first"),
     ("inplace", lambda k: k.endswith("/ttf-inplace"), lambda k: k[:-12] + "/ttf"),
     ("after fonts of other styles were compiled", lambda k: k.endswith("/ttf-after-other-styles"), lambda k: k[:-23] + "/ttf"),
+    ("after an empty layer of the same font was compiled", lambda k: k.endswith("/ttf-after-empty-layer"), lambda k: k[:-22] + "/ttf"),
     ("reloaded from disk", lambda k: k.endswith("/ttf-reloaded"), lambda k: k[:-13] + "/ttf"),
     ("reloaded from disk (otf)", lambda k: k.endswith("/otf-reloaded"), lambda k: k[:-13] + "/otf-first"),
     ("static after variable", lambda k: k.endswith("/static-after-var"), lambda k: k[:-17] + "/static-first"),
